@@ -960,6 +960,8 @@ def check_find_clashes(chk, fi, radii: Dict[str, float], extra: float) -> Option
         return str(ex)
     except RecursionError:
         return "recursion while evaluating"
+    except (TypeError, AttributeError, NotConst) as ex:  # an operation the stubs do not model
+        return f"{type(ex).__name__}: {ex}"
     site = fi.where
     n_cl = len(ce.clusters)
     # decided on the current code whatever its shape: evidence rules
@@ -1219,6 +1221,8 @@ def check_main(chk, mn) -> Optional[str]:
         return None
     except RecursionError:
         return "recursion while evaluating"
+    except (TypeError, AttributeError, NotConst) as ex:  # an operation the stubs do not model
+        return f"{type(ex).__name__}: {ex}"
     site = mn.where
     cap = runs[False].cap
     chk.robust |= {"report-clashes", "report-grouping", "report-maxima", "report-loops"}
@@ -1264,6 +1268,8 @@ def check_main(chk, mn) -> Optional[str]:
         return out
 
     want = sorted((tuple(sorted((a1.name, a2.name))), s) for (_, a1), (_, a2), s in L)
+    wantmap = dict(want)
+    pick = lambda pair, nums: next((x for x in nums if pair in wantmap and math.isclose(x, wantmap[pair], abs_tol=1e-12)), nums[0])
     tree, stray = parse_report(cap.lines)
     rows = parse_rows(cap.rows)
     # ---- listed clashes = the clashes -----------------------------------------------------------------------------
@@ -1273,10 +1279,9 @@ def check_main(chk, mn) -> Optional[str]:
     for (ch, rs_list) in tree:
         for (rh, atom_lines) in rs_list:
             for kind, at, rs_in_line, nums, ln in atom_lines:
-                if len(at) != 2 or len(nums) != 1:
-                    add("report-clashes", f"printed line `{ln.strip()[:80]}` does not name two atoms and one occupancy sum")
-                    continue
-                printed.append((tuple(sorted(at)), nums[0]))
+                if len(at) != 2 or not nums:
+                    return f"printed line `{ln.strip()[:60]}` does not name two atoms and an occupancy sum: report layout not understood"
+                printed.append((tuple(sorted(at)), pick(tuple(sorted(at)), nums)))
                 # orientation: the k-th residue of the heading owns the k-th atom of the line
                 hr = rs_in_line if rs_in_line else rh[1]
                 if len(hr) == 1:
@@ -1292,7 +1297,7 @@ def check_main(chk, mn) -> Optional[str]:
                 if len(hc) != 2 or [res_by_tok[h].chain for h in hr] != list(hc):
                     add("report-grouping", f"residues {hr[0]} / {hr[1]} are listed under the chain heading `{ch[3].strip()[:70]}`")
     if stray:
-        add("report-clashes", f"line `{stray[0].strip()[:80]}` is printed outside a chain / residue heading")
+        return f"line `{stray[0].strip()[:60]}` is printed outside a chain / residue heading: report layout not understood"
     if sorted(printed) != want:
         missing = [w for w in want if w not in printed]
         extra = [p for p in printed if p not in want]
@@ -1300,26 +1305,27 @@ def check_main(chk, mn) -> Optional[str]:
     # ---- maxima --------------------------------------------------------------------------------------------------
     n_heads = 0
     for (ch, rs_list) in tree:
-        below = [it[3][0] for (_, lines) in rs_list for it in lines if len(it[3]) == 1]
-        for head, vals in [(ch, below)] + [(rh, [it[3][0] for it in lines if len(it[3]) == 1]) for (rh, lines) in rs_list]:
+        occ_of = lambda it: pick(tuple(sorted(it[1])), it[3])
+        below = [occ_of(it) for (_, lines) in rs_list for it in lines]
+        for head, vals in [(ch, below)] + [(rh, [occ_of(it) for it in lines]) for (rh, lines) in rs_list]:
             n_heads += 1
             nums = head[2]
-            if len(nums) != 1:
-                add("report-maxima", f"heading `{head[3].strip()[:80]}` does not print one maximum")
-            elif not vals or not math.isclose(nums[0], max(vals), abs_tol=1e-12):
-                add("report-maxima", f"heading `{head[3].strip()[:80]}` prints {nums[0]} but the largest occupancy sum listed below it is {max(vals) if vals else None}")
+            if not nums:
+                return f"heading `{head[3].strip()[:60]}` prints no number: report layout not understood"
+            if not vals or not any(math.isclose(x, max(vals), abs_tol=1e-12) for x in nums):
+                add("report-maxima", f"heading `{head[3].strip()[:80]}` prints {nums[0] if len(nums) == 1 else nums} but the largest occupancy sum listed below it is {max(vals) if vals else None}")
     # ---- CSV -----------------------------------------------------------------------------------------------------------
     csv_rows = []
     for cells, occ, row in rows:
         pairs = [(rs, at) for rs, at in cells if len(rs) == 1 and len(at) == 1]
-        if len(pairs) != 2 or len(occ) != 1:
-            add("report-clashes", f"CSV row `{str(row)[:100]}` does not hold two (residue, atom) cells and one occupancy sum")
-            continue
+        if len(pairs) != 2 or not occ:
+            return f"CSV row `{str(row)[:80]}` does not hold two (residue, atom) cells and an occupancy sum: CSV layout not understood"
         for rs, at in pairs:
             if atoms[at[0]].owner is not res_by_tok.get(rs[0]):
                 add("report-grouping", f"the CSV attributes atom {atoms[at[0]].token} (of residue {atoms[at[0]].owner.token}) to residue {rs[0]}: the key a clash is filed under and the stored (atom, atom, sum) record do not agree on the order of the pair")
                 break
-        csv_rows.append((tuple(sorted(p[1][0] for p in pairs)), occ[0]))
+        pr = tuple(sorted(p[1][0] for p in pairs))
+        csv_rows.append((pr, pick(pr, occ)))
     if sorted(csv_rows) != want:
         missing = [w for w in want if w not in csv_rows]
         extra = [p for p in csv_rows if p not in want]
